@@ -512,7 +512,7 @@ fn run_controlled(w: usize, n: usize, sched: &[String], blocking: bool, drain: b
 
 /// Free-running run: no controller; random per-item delays and yields at the hook
 /// points, a consumer that is sometimes slow, optional drop after `drop_after` items.
-fn run_free(w: usize, n: usize, seed: u64, drop_after: Option<usize>, slow: f64, slow_item: Option<(usize, u64)>) -> Value {
+fn run_free(w: usize, n: usize, seed: u64, drop_after: Option<usize>, slow: f64, slow_item: Option<(usize, u64)>, idle_ms: u64) -> Value {
     let ctl = Ctl::new(Mode::Free, w, seed, 0.4);
     let c2 = ctl.clone();
     install(Some(Arc::new(move |t, p, i, k| on_point(&c2, t, p, i, k))));
@@ -525,7 +525,7 @@ fn run_free(w: usize, n: usize, seed: u64, drop_after: Option<usize>, slow: f64,
     loop {
         if Some(got) == drop_after {
             // an idle consumer first: let the workers run ahead as far as they can
-            std::thread::sleep(Duration::from_millis(3));
+            std::thread::sleep(Duration::from_millis(idle_ms));
             ctl.ev(json!({"e": "Drop", "w": 0, "x": 0, "k": true}));
             dropped = true;
             break;
@@ -595,7 +595,8 @@ pub fn exec(case: &Value) -> Vec<Value> {
         let d = case.get("drop_after").and_then(|x| x.as_u64()).map(|x| x as usize);
         let slow = case.get("slow").and_then(|x| x.as_f64()).unwrap_or(0.2);
         let slow_item = case.get("slow_item").and_then(|x| x.as_u64()).map(|k| (k as usize, case.get("slow_ms").and_then(|x| x.as_u64()).unwrap_or(6500)));
-        run_free(w, n, case.get("seed").and_then(|x| x.as_u64()).unwrap_or(0), d, slow, slow_item)
+        let idle_ms = case.get("idle_ms").and_then(|x| x.as_u64()).unwrap_or(3);
+        run_free(w, n, case.get("seed").and_then(|x| x.as_u64()).unwrap_or(0), d, slow, slow_item, idle_ms)
     } else {
         let sched: Vec<String> = case["sched"]
             .as_array()
